@@ -29,7 +29,7 @@ ASSUMPTIONS = [
 
 TIERS = {
     "quick":    {"runs": 320000, "chunk": 10000, "hash_seeds": [0], "max_ops": 25, "timeout": 900},
-    "thorough": {"runs": 3200000, "chunk": 50000, "hash_seeds": [0], "max_ops": 40, "timeout": 3000},
+    "thorough": {"runs": 3200000, "chunk": 50000, "max_wall": 2400, "hash_seeds": [0], "max_ops": 40, "timeout": 3000},
     "selftest": {"runs": 1600,   "chunk": 100,  "hash_seeds": [0], "max_ops": 25, "timeout": 300},
 }
 REQUIRED_PROBES = {
